@@ -217,4 +217,147 @@ theorem parseBitVector_digits (s : String) (width : Option Nat) (tag : Char) (nu
     · simp only [hok, if_true]; exact parseDigits_spec 1 (by omega) (by omega) num width
     · simp only [hok, if_false, Bool.false_eq_true, resultBits]
 
+
+/-! ## decimal literals -/
+
+/-- the number a decimal digit string spells (`strtoull`, before its range check) -/
+def decValue (num : List Char) : Nat := num.foldl (fun a c => a * 10 + (c.toNat - '0'.toNat)) 0
+
+/-- `d` literals: the number in exactly as many bits as it needs (`Log2C(n+1)`; 64 for 2^64-1), or in the explicit width -/
+def specDec (num : List Char) (width : Option Nat) : Option (List (Option Bool)) :=
+  let n := decValue num
+  if n ≥ 2^64 then none else
+  let w := if n = 2^64 - 1 then 64 else log2c (n + 1)
+  let size := match width with | none => w | some 0 => w | some W => W
+  if size < w then none else some ((List.range size).map fun i => some (n.testBit i))
+
+theorem bit_foldAssign (f : Nat → Bool) (w : Nat) (v : Plane) (hw : w ≤ 64 * v.length) (p : Nat) :
+    (bit ((List.range w).foldl (fun v i => assignBit v i (f i)) v) p = if p < w then f p else bit v p) ∧
+    ((List.range w).foldl (fun v i => assignBit v i (f i)) v).length = v.length := by
+  induction w with
+  | zero => simp
+  | succ k ih =>
+    obtain ⟨h1, h2⟩ := ih (by omega)
+    rw [List.range_succ, List.foldl_append]
+    simp only [List.foldl_cons, List.foldl_nil]
+    refine ⟨?_, by rw [assignBit_length, h2]⟩
+    rw [bit_assignBit _ _ _ _ (by rw [h2]; omega)]
+    by_cases hp : p = k
+    · subst hp; simp
+    · rw [h1]
+      by_cases hlt : p < k
+      · have : p < k + 1 := by omega
+        simp [hp, hlt, this]
+      · have : ¬ p < k + 1 := by omega
+        simp [hp, hlt, this]
+
+theorem dec_width_bound (n : Nat) (h : n < 2^64) : n < 2 ^ (if n = 2^64 - 1 then 64 else log2c (n + 1)) := by
+  split
+  · exact h
+  · unfold log2c
+    split
+    · rename_i h1; have : n = 0 := by omega
+      subst this; simp
+    · rename_i h1
+      simp only [Nat.add_sub_cancel]
+      exact Nat.lt_log2_self
+
+theorem parseDec_core (num : List Char) (size : Nat) (v d : Plane) (hn : decValue num < 2^64)
+    (hsz : (if decValue num = 2^64 - 1 then 64 else log2c (decValue num + 1)) ≤ size)
+    (hv : size ≤ 64 * v.length) (hd : size ≤ 64 * d.length)
+    (hv0 : ∀ p, p < size → bit v p = false)
+    (hd0 : ∀ p, (if decValue num = 2^64 - 1 then 64 else log2c (decValue num + 1)) ≤ p → p < size → bit d p = true) :
+    resultBits (.ok size
+        ((List.range (if decValue num = 2^64 - 1 then 64 else log2c (decValue num + 1))).foldl
+          (fun v i => assignBit v i ((decValue num).testBit i)) v)
+        (setRange d 0 (if decValue num = 2^64 - 1 then 64 else log2c (decValue num + 1)) true)) =
+      some ((List.range size).map fun i => some ((decValue num).testBit i)) := by
+  have hb := dec_width_bound _ hn
+  generalize (if decValue num = 2^64 - 1 then 64 else log2c (decValue num + 1)) = w at *
+  simp only [resultBits, Option.some.injEq]
+  apply List.map_congr_left
+  intro p hp
+  simp only [List.mem_range] at hp
+  rw [(bit_foldAssign _ w v (by omega) p).1, bit_setRange _ _ _ _ _ (by unfold InRange; omega)]
+  by_cases hpw : p < w
+  · simp [hpw]
+  · have h1 : bit d p = true := hd0 p (by omega) hp
+    have h2 : (decValue num).testBit p = false :=
+      Nat.testBit_lt_two_pow (Nat.lt_of_lt_of_le hb (Nat.pow_le_pow_right (by decide) (by omega)))
+    simp [hpw, h1, hv0 p hp, h2]
+
+
+def decW (n : Nat) : Nat := if n = 2^64 - 1 then 64 else log2c (n + 1)
+
+theorem parseDec_implicit (num : List Char) (v0 d0 : Plane) :
+    parseDec num (0, v0, d0) = if decValue num ≥ 2^64 then .designError else
+      .ok (decW (decValue num))
+        ((List.range (decW (decValue num))).foldl (fun v i => assignBit v i ((decValue num).testBit i)) (resizePlane v0 (decW (decValue num))))
+        (setRange (resizePlane d0 (decW (decValue num))) 0 (decW (decValue num)) true) := by
+  unfold parseDec decValue decW
+  simp only [beq_self_eq_true, if_true, Nat.lt_irrefl, if_false]
+
+theorem parseDec_explicit (num : List Char) (W : Nat) (v0 d0 : Plane) :
+    parseDec num (W + 1, v0, d0) = if decValue num ≥ 2^64 then .designError else
+      if W + 1 < decW (decValue num) then .designError else
+      .ok (W + 1)
+        ((List.range (decW (decValue num))).foldl (fun v i => assignBit v i ((decValue num).testBit i)) v0)
+        (setRange d0 0 (decW (decValue num)) true) := by
+  unfold parseDec decValue decW
+  have hne : (W + 1 == 0) = false := by simp
+  simp only [hne, Bool.false_eq_true, if_false]
+
+theorem specDec_eq (num : List Char) (width : Option Nat) : specDec num width =
+    if decValue num ≥ 2^64 then none else
+    if (match width with | none => decW (decValue num) | some 0 => decW (decValue num) | some W => W) < decW (decValue num) then none
+    else some ((List.range (match width with | none => decW (decValue num) | some 0 => decW (decValue num) | some W => W)).map
+      fun i => some ((decValue num).testBit i)) := by
+  unfold specDec decW; rfl
+
+theorem parseDec_zero (num : List Char) (v0 d0 : Plane) (h0 : v0.length = 0) :
+    resultBits (parseDec num (0, v0, d0)) = specDec num none := by
+  rw [parseDec_implicit, specDec_eq]
+  by_cases hn : decValue num ≥ 2^64
+  · simp [hn, resultBits]
+  · simp only [hn, if_false, Nat.lt_irrefl]
+    exact parseDec_core num _ _ _ (by omega) (Nat.le_refl _) (by rw [resizePlane_length]; exact len_bound _)
+      (by rw [resizePlane_length]; exact len_bound _)
+      (fun p _ => by rw [bit_resizePlane, bit_of_ge v0 p (by omega)]; simp) (fun p h1 h2 => by unfold decW at *; omega)
+
+theorem parseDec_spec (num : List Char) (width : Option Nat) :
+    resultBits (parseDec num (initState width)) = specDec num width := by
+  cases width with
+  | none => simpa [initState] using parseDec_zero num [] [] rfl
+  | some W =>
+    cases W with
+    | zero =>
+      have := parseDec_zero num (setRange (resizePlane [] 0) 0 0 false) (setRange (resizePlane [] 0) 0 0 true)
+        (by rw [setRange_length, resizePlane_length])
+      simpa [initState, specDec] using this
+    | succ W =>
+      unfold initState
+      rw [parseDec_explicit, specDec_eq]
+      by_cases hn : decValue num ≥ 2^64
+      · simp [hn, resultBits]
+      · simp only [hn, if_false]
+        by_cases hsz : W + 1 < decW (decValue num)
+        · simp [hsz, resultBits]
+        · simp only [hsz, if_false]
+          have hlen : ∀ b, (setRange (resizePlane [] (W + 1)) 0 (W + 1) b).length = (W + 1 + 63) / 64 := by
+            intro b; rw [setRange_length, resizePlane_length]
+          have hin : InRange (resizePlane [] (W + 1)) 0 (W + 1) := by
+            unfold InRange; rw [resizePlane_length]; have := len_bound (W + 1); omega
+          exact parseDec_core num (W + 1) _ _ (by omega) (by unfold decW at hsz; omega) (by rw [hlen]; exact len_bound _) (by rw [hlen]; exact len_bound _)
+            (fun p hp => by rw [bit_setRange _ _ _ _ _ hin]; simp [hp])
+            (fun p _ hp => by rw [bit_setRange _ _ _ _ _ hin]; simp [hp])
+
+
+theorem parseBitVector_dec (s : String) (width : Option Nat) (num : List Char) (h : splitWidth s.toList = (width, 'd' :: num)) :
+    resultBits (parseBitVector s) = if num.all isDigit then specDec num width else none := by
+  unfold parseBitVector
+  simp only [h]
+  by_cases hok : num.all isDigit = true
+  · simp only [hok, if_true]; exact parseDec_spec num width
+  · simp only [hok, if_false, Bool.false_eq_true, resultBits]
+
 end Gatery.C18
